@@ -135,6 +135,10 @@ struct Client {
     out: Outcome,
     watch_q: Vec<(WatchTarget, u32)>,
     touched: Vec<WatchTarget>,
+    ev_serial: u32,
+    /// per path: serial of the event describing its last mutation / of the event sent last for it
+    last_enqueued: Vec<(WatchTarget, u32)>,
+    last_sent: Vec<(WatchTarget, u32)>,
     pending: Vec<PendingAnswer>,
     fault_rng: Rng,
     faults_on: bool,
@@ -246,6 +250,9 @@ impl Client {
 
     fn send(&mut self, msg: Message) {
         let t = self.now_ms();
+        if std::env::var("VERIF_LS_TRACE").is_ok() {
+            eprintln!("  client sends {}", serde_json::to_string(&msg).unwrap_or_default().chars().take(110).collect::<String>());
+        }
         self.out.history.push(HEvent { t_ms: t, dir: Dir::C2S, msg: msg.clone() });
         let _ = self.tx.send(msg);
     }
@@ -441,6 +448,10 @@ impl Client {
     async fn gap(&mut self, gap: &Gap) {
         match gap {
             Gap::Zero => {}
+            Gap::StallMainAt { n } => {
+                crate::controller::with_current(|s| s.main_countdown = *n);
+                self.count("fault.main_loop_stall_armed");
+            }
             Gap::Yield(n) => {
                 for _ in 0..*n {
                     tokio::task::yield_now().await;
@@ -448,8 +459,8 @@ impl Client {
                 self.drain();
             }
             Gap::SleepMs(ms) => self.sleep_polling(*ms, 50).await,
-            Gap::Until { what, max_ms, hold, advance_ms } => {
-                crate::controller::with_current(|s| s.arm(*what, *hold));
+            Gap::Until { what, max_ms, hold, advance_ms, main_stall_at } => {
+                crate::controller::with_current(|s| s.arm_with(*what, *hold, *main_stall_at));
                 let end = self.now_ms() + *max_ms;
                 loop {
                     self.drain();
@@ -485,11 +496,19 @@ impl Client {
         }
     }
 
+    /// Every disk mutation enqueues the watcher event that reports it. The event carries a serial
+    /// number in the upper bits of its type word (`typ | serial << 8`), so that the settle phase
+    /// knows whether the event that describes the *last* mutation of a path was also the last one
+    /// sent for that path.
     fn enqueue_watch(&mut self, target: WatchTarget, typ: u32) {
         if !self.touched.contains(&target) {
             self.touched.push(target.clone());
         }
-        self.watch_q.push((target, typ));
+        self.ev_serial += 1;
+        let serial = self.ev_serial;
+        self.last_enqueued.retain(|(t, _)| *t != target);
+        self.last_enqueued.push((target.clone(), serial));
+        self.watch_q.push((target, typ | (serial << 8)));
     }
 
     fn target_uri(&self, t: &WatchTarget) -> String {
@@ -504,7 +523,11 @@ impl Client {
             return;
         }
         let changes: Vec<Value> =
-            evs.iter().map(|(t, typ)| json!({"uri": self.target_uri(t), "type": typ})).collect();
+            evs.iter().map(|(t, typ)| json!({"uri": self.target_uri(t), "type": typ & 0xff})).collect();
+        for (t, typ) in evs {
+            self.last_sent.retain(|(x, _)| x != t);
+            self.last_sent.push((t.clone(), typ >> 8));
+        }
         for (t, _) in evs {
             if let WatchTarget::Doc(d) = t {
                 if self.out.editor[*d].is_some() {
@@ -896,6 +919,9 @@ pub fn execute_opts(spec: &RunSpec, capture_sites: bool) -> Outcome {
                 out,
                 watch_q: Vec::new(),
                 touched: Vec::new(),
+                ev_serial: 0,
+                last_enqueued: Vec::new(),
+                last_sent: Vec::new(),
                 pending: Vec::new(),
                 fault_rng,
                 faults_on: true,
@@ -1009,6 +1035,18 @@ async fn client_main(c: &mut Client, server: tokio::task::JoinHandle<Result<(), 
     let touched = c.touched.clone();
     let mut finals = Vec::new();
     for t in touched {
+        // The watcher owes the server one thing: the last event it sends for a path describes the
+        // path's last change. Everything queued has just been delivered in order, so that already
+        // holds unless a batch was delivered reversed; only then a final event follows. (A
+        // redundant final event for every path would paper over a server that applies two
+        // notifications about one path in the wrong order.)
+        let enq = c.last_enqueued.iter().find(|(x, _)| *x == t).map(|x| x.1);
+        let sent = c.last_sent.iter().find(|(x, _)| *x == t).map(|x| x.1);
+        if enq.is_some() && enq == sent {
+            c.count("probe.path_settled_without_final_event");
+            continue;
+        }
+        c.count("probe.final_watcher_event_needed");
         let exists = match &t {
             WatchTarget::Doc(d) => c.out.disk[*d].is_some(),
             WatchTarget::Emmyrc => c.emmyrc_path.exists(),
